@@ -285,3 +285,70 @@ def check_metadata(prog, chk, rule_id):
                "metadata record (%d bytes) %s: expected %s, source gives (result %s, error code %s, status %s)"
                % (rec_len, "with %s" % ({k: v for k, v in pad.items()} if pad else "no padding element"), "OK" if want_ok else "FAIL/INT-11",
                   {OKC: "OK", FAIL: "FAIL"}.get(got[0], got[0]), got[1], got[2]), loc=fn.loc(), fn=fn)
+
+
+def check_ok_after_failure(prog, chk, rule_id, rules):
+    """A verification rule never stores the OK verdict on a path that left a failed helper call (status != KSI_OK branch) without a new
+    status-producing call in between: an unverifiable component must not be reported as verified."""
+    from ksirules.flow import edge_facts, status_var
+    from ksirules.model import is_int, is_var, lvalue_key, strip, walk
+    OKC = prog.const("KSI_VER_RES_OK")
+    for r in rules:
+        fn = prog.fn(r)
+        sv = status_var(fn)
+        if sv is None:
+            continue
+        okstores = set()
+        for b, i, n in fn.nodes():
+            if n.get("k") == "asg" and (lvalue_key(n["l"], fn) or "").endswith("->resultCode") and is_int(fn.resolve(strip(n["r"])), OKC):
+                okstores.add(b)
+        if not okstores:
+            continue
+        # blocks that (re)compute the status from a call
+        recompute = set()
+        for b, blk in fn.blocks.items():
+            for el in blk["elems"]:
+                for n in walk(el["e"]):
+                    if n.get("k") == "asg" and is_var(n["l"], sv) and fn.as_call(n["r"]) is not None:
+                        recompute.add(b)
+        bad = None
+        ncalls = 0
+        for b in fn.blocks:
+            for e in fn.succ[b]:
+                failed = False
+                for (op, l, r_) in edge_facts(fn, e):
+                    if is_var(l, sv) and is_int(r_, 0) and op == "!=":
+                        failed = True
+                    if is_var(r_, sv) and is_int(l, 0) and op == "!=":
+                        failed = True
+                if not failed:
+                    continue
+                ncalls += 1
+                seen, work = set(), [(e.dst, [b, e.dst])]
+                while work and bad is None:
+                    x, path = work.pop()
+                    if x in seen:
+                        continue
+                    seen.add(x)
+                    if x in okstores:
+                        bad = path
+                        break
+                    if x in recompute:
+                        continue
+                    for e2 in fn.succ[x]:
+                        # a later test `res == KSI_OK` / `res != KSI_OK` on the same failed status is decided
+                        skip = False
+                        for (op, l, r_) in edge_facts(fn, e2):
+                            if ((is_var(l, sv) and is_int(r_, 0)) or (is_var(r_, sv) and is_int(l, 0))) and op == "==":
+                                skip = True
+                        if not skip:
+                            work.append((e2.dst, path + [e2.dst]))
+                if bad:
+                    break
+            if bad:
+                break
+        from ksirules.flow import path_lines
+        chk.ob(rule_id, r[len(PFX):], bad is None,
+               "%d failure branches: none of them reaches the store of the OK verdict" % ncalls if bad is None else
+               "a path from a failed helper call (status != KSI_OK) reaches the store of the OK verdict without a new operation: what could not be "
+               "verified is reported as verified", loc=fn.loc(), fn=fn, path=None if bad is None else path_lines(fn, bad), nontrivial=ncalls > 0)
